@@ -11,7 +11,7 @@ func vfC05WktTail(tier int) int {
 	if tier == 0 {
 		return 5
 	}
-	return 7
+	return 6
 }
 
 func vfC05Wkt_N(tier int) int { return len(vfC05Prefixes) * vfC05WktTail(tier) }
